@@ -17,6 +17,9 @@ type Region struct {
 	Start, Stop []byte
 	ID          uint64
 	Server      string
+	// Offline: a row hbase:meta still holds for a region that no longer exists (the parent
+	// of a split, flagged offline + split, until the catalog janitor removes it)
+	Offline bool
 }
 
 // Name is table,start,id.hash. ; the hash depends on the whole identity.
@@ -88,6 +91,8 @@ type Cluster struct {
 	// RespHook (tier W) may replace the response and the cells of a successfully executed
 	// single-row operation: structurally valid answers with odd contents
 	RespHook func(kind string, row []byte, resp proto.Message, cells []KV) (proto.Message, []KV)
+	// StaleRows: rows of regions that no longer exist which hbase:meta still holds (Offline)
+	StaleRows []*Region
 	Silent     map[string]bool     // server accepts requests but never answers
 	Hold       map[string]bool     // row key -> the answer to user operations on it is held back (slow server)
 	KeyScript  map[string][]string // row key -> outcome classes of the next user operations on it ("" = execute)
@@ -406,8 +411,12 @@ func MetaCells(r *Region) []KV {
 	if i := bytes.IndexByte(tb, ':'); i >= 0 {
 		ns, tb = tb[:i], tb[i+1:]
 	}
-	ri, _ := proto.Marshal(&pb.RegionInfo{RegionId: proto.Uint64(r.ID),
-		TableName: &pb.TableName{Namespace: ns, Qualifier: tb}, StartKey: r.Start, EndKey: r.Stop})
+	info := &pb.RegionInfo{RegionId: proto.Uint64(r.ID),
+		TableName: &pb.TableName{Namespace: ns, Qualifier: tb}, StartKey: r.Start, EndKey: r.Stop}
+	if r.Offline {
+		info.Offline, info.Split = proto.Bool(true), proto.Bool(true)
+	}
+	ri, _ := proto.Marshal(info)
 	n := r.Name()
 	return []KV{
 		{Row: n, Family: []byte("info"), Qualifier: []byte("regioninfo"), Value: append([]byte("PBUF"), ri...), TS: 1, Type: 4},
@@ -437,7 +446,7 @@ func (c *Cluster) ExecMetaLookup(addr string, startRow, stopRow []byte) (OpResul
 	}
 	c.attempt(addr, "hbase:meta,,1", "metascan", "ok")
 	st, sk, si := splitRegionName(startRow)
-	rs := append([]*Region(nil), c.Regions...)
+	rs := append(append([]*Region(nil), c.Regions...), c.StaleRows...)
 	sort.Slice(rs, func(i, j int) bool {
 		at, ak, ai := splitRegionName(rs[i].Name())
 		bt, bk, bi := splitRegionName(rs[j].Name())
@@ -480,7 +489,7 @@ func (c *Cluster) ExecMetaScanAll(addr string, startRow, stopRow []byte) (OpResu
 		return OpResult{Class: cls, Stack: "scripted meta exception"}, nil
 	}
 	c.attempt(addr, "hbase:meta,,1", "metascan", "ok")
-	rs := append([]*Region(nil), c.Regions...)
+	rs := append(append([]*Region(nil), c.Regions...), c.StaleRows...)
 	sort.Slice(rs, func(i, j int) bool {
 		at, ak, ai := splitRegionName(rs[i].Name())
 		bt, bk, bi := splitRegionName(rs[j].Name())
